@@ -1098,3 +1098,20 @@ pub fn verif_read_payload_size(buffer: &[u8]) -> Result<(usize, usize), &'static
         ReadError::DecodeError => "decode-error",
     })
 }
+
+#[cfg(litep2p_verif)]
+impl Substream {
+    /// Read-only projections for the conformance harness.
+    pub(crate) fn verif_read_buffer_len(&self) -> usize {
+        self.read_buffer.len()
+    }
+
+    /// `(pending_out_frames.len(), pending_out_frame.is_some(), pending_out_bytes)`.
+    pub fn verif_pending_out(&self) -> (usize, bool, usize) {
+        (
+            self.pending_out_frames.len(),
+            self.pending_out_frame.is_some(),
+            self.pending_out_bytes,
+        )
+    }
+}
